@@ -247,7 +247,9 @@ func keyFromText(s string, kt *model.Type) (*model.Val, error) {
 		}
 		t, err := time.Parse("2006-01-02 15:04:05.999999999 -0700", u[:i])
 		if err != nil {
-			return nil, err
+			// years outside 0000..9999 and the like: keep the key as an opaque
+			// instant derived from its text (equal texts, equal keys)
+			return model.VTime(model.TimeV{Unix: int64(hashText(u) % (1 << 40)), Zone: "opaque:" + u}), nil
 		}
 		_, off := t.Zone()
 		return model.VTime(model.TimeV{Unix: t.Unix(), Nano: t.Nanosecond(), Off: off, Zone: u[i+1:]}), nil
@@ -267,4 +269,13 @@ func FunName(v *val.Val) string {
 		return n
 	}
 	return "?"
+}
+
+func hashText(s string) uint64 {
+	h := uint64(14695981039346656037)
+	for i := 0; i < len(s); i++ {
+		h ^= uint64(s[i])
+		h *= 1099511628211
+	}
+	return h
 }
